@@ -168,6 +168,32 @@ class C10(PropBase):
                 add("long-at-boundary", data, G.sched_line_starts(data, group=1 + rng.below(2)))
             if i % 3 == 1 and not data.endswith(b"\n"):   # chunk boundary right after the last newline of a truncated file
                 add("trunc-at-boundary", data, [str(data.rfind(b"\n") + 1)])
+        # 3b. "ladder" files, all lines < 80 KiB: a line of 60..80 KiB (whatever the growth ladder of the buffer is, the buffer is
+        #     at or near its final capacity afterwards), then 30..110 KiB of short complete records, then another line of
+        #     50..80 KiB, under FINE chunkings.  With the code's ladder 10-20-40-80-160 KiB every such line fits under every
+        #     chunking; with a smaller final capacity / another ladder the whole-buffer parse (one big read that ends inside
+        #     the second long line) drops it while small reads keep it.
+        def valid_long(n):
+            head = rng.choice([b"FILE 7 ", b"PUBLIC 10 0 ", b"INFO ", b"FUNC 1000 10 0 "])
+            return head + rng.choice([b"a", b"Z", b"q"]) * (n - len(head))
+
+        for i in range(100 if quick else 1000):
+            lines = [b"MODULE Linux x86 ABC name"]
+            for rep in range(1 + rng.below(2)):
+                lines.append(valid_long(rng.choice([rng.range(60000, 81919), rng.range(65000, 81919), 81919])))
+                total = rng.range(30000, 110000)
+                unit = rng.choice([100, 1000, 4000, 10000, 16000])
+                k = 0
+                while total > 0:
+                    n = max(12, min(total, unit + rng.below(unit)))
+                    lines.append(b"FILE %d " % (k % 1000) + b"s" * (n - 9))
+                    total -= n + 1
+                    k += 1
+                lines.append(valid_long(rng.choice([rng.range(50000, 81919), rng.range(65537, 81919), 81919])))
+                lines.append(b"FILE 9 z")
+            data = G.join(rng, lines, eol_mode=0, final_nl=True)
+            c = rng.choice([1000, 4096, 10240, 512, 16384, 30000])
+            add("ladder", data, ["%d*%d" % (c, len(data) // c + 2)], tag="ok")
         # 4. outside the class (lines >= 80 KiB): only the callback half of the property applies
         for i in range(80 if quick else 800):
             lines = G.gen_lines(rng, rng.below(4))
